@@ -14,7 +14,9 @@ import (
 	"fmt"
 	"math"
 	"os"
+	"runtime"
 	"testing"
+	"time"
 )
 
 type Input struct {
@@ -207,7 +209,16 @@ func runCase(c *Case, f func()) (r *Result) {
 			r.Panic = fmt.Sprint(e)
 		}
 	}()
+	base := runtime.NumGoroutine()
 	f()
+	// A panic in a goroutine spawned by the code under test (errgroup.Go ...)
+	// kills the test binary asynchronously: its deferred Done() lets the harness
+	// run on while the runtime is still printing the crash.  Wait for leftover
+	// goroutines before reporting this case as done, so that the crash is
+	// attributed to the case that caused it.
+	for i := 0; i < 60 && runtime.NumGoroutine() > base; i++ {
+		time.Sleep(5 * time.Millisecond)
+	}
 	r.Done = true
 	return r
 }
